@@ -265,6 +265,8 @@ func c15JWKSURI(c *run.Ctx) {
 		{"https://keys.example/jwks.json", "https://keys.example/jwks.json#b"},
 		{"https://keys.example/jwks.json?tenant=a&v=1", "https://keys.example/jwks.json?v=1&tenant=b"},
 		{"https://keys.example:443/jwks.json", "https://keys.example:8443/jwks.json"},
+		{"https://keys.example/t/Ab12Cd/jwks.json", "https://keys.example/t/aB12cD/jwks.json"},
+		{"https://keys.example/jwks.json?kid=Zx", "https://keys.example/jwks.json?kid=zX"},
 	}
 	for li, lp := range locs {
 		for order := 0; order < 2; order++ {
